@@ -70,15 +70,25 @@ pub fn dispatch<D: GD>(d: &mut D, ins: Instruction) -> Result<(), String> {
 
 /// place sentinels, then the operands (left first, as the builder's code does), call the instruction, read the result back
 pub fn call<D: GD>(d: &mut D, ins: Instruction, left: &V, right: Option<&V>) -> Result<OpOutcome, String> {
+    call_built(d, ins, left, right, false)
+}
+
+/// like `call`, with every structurally identical sub-value of the two operands built once and shared (same address)
+pub fn call_sharing<D: GD>(d: &mut D, ins: Instruction, left: &V, right: Option<&V>) -> Result<OpOutcome, String> {
+    call_built(d, ins, left, right, true)
+}
+
+fn call_built<D: GD>(d: &mut D, ins: Instruction, left: &V, right: Option<&V>, sharing: bool) -> Result<OpOutcome, String> {
     let s1 = d.add_number(SimpleNumber::Integer(-7001)).map_err(|e| e.to_string())?;
     let s2 = d.add_number(SimpleNumber::Integer(-7002)).map_err(|e| e.to_string())?;
     // a few instructions so that cursor + 1 is meaningful for apply
     let base = d.get_register_len();
     d.push_register(s1).map_err(|e| e.to_string())?;
     d.push_register(s2).map_err(|e| e.to_string())?;
-    let la = build_value(d, left)?;
+    let mut memo = std::collections::HashMap::new();
+    let la = if sharing { crate::model::value::build_value_sharing(d, left, &mut memo)? } else { build_value(d, left)? };
     let ra = match right {
-        Some(r) => Some(build_value(d, r)?),
+        Some(r) => Some(if sharing { crate::model::value::build_value_sharing(d, r, &mut memo)? } else { build_value(d, r)? }),
         None => None,
     };
     d.push_register(la).map_err(|e| e.to_string())?;
